@@ -66,7 +66,8 @@ LibHarm(w, A, off, nn) ==
 HarmPhasor(w, A, off, nn, u) == LET l == LibHarm(w, A, off, nn) IN
    <<l[1], CMul(CMul(CQ(l[2]), JPow(l[3])), IF nn = 0 THEN C1 ELSE CPow(u, nn))>>
 \* the same for a phase of kq quarter turns
-HarmPhasorQ(w, A, off, nn, kq) == HarmPhasor(w, A, off, nn, JPow(kq))
+HarmPhasorQ(w, A, off, nn, kq) == LET l == LibHarm(w, A, off, nn) IN
+   <<l[1], CMul(CMul(CQ(l[2]), JPow(l[3])), IF nn = 0 THEN C1 ELSE JPow((kq % 4) * (nn % 4)))>>
 
 \* ---- the theorem TLC checks (MC_C08): amplitude*exp(j*phase) = 2 c_n for n >= 1, = mean for n = 0
 CoefficientsAreTrue(w, A, off, nn, kq) ==
